@@ -137,10 +137,11 @@ def mergeOverlapped : List Rng' → List Rng'
   | [] => []
   | r :: rs => mergeOverlappedGo r rs
 
-/-- stable insertion sort by start (`sort_by_key(|r| r.start)` is a stable sort) -/
+/-- stable insertion sort by start (`sort_by_key(|r| r.start)` is a stable sort): `foldr` inserts the earlier element
+    last, and it goes in front of everything that does not start before it -/
 def insertByStart (x : Rng') : List Rng' → List Rng'
   | [] => [x]
-  | y :: ys => if x.1 < y.1 then x :: y :: ys else y :: insertByStart x ys
+  | y :: ys => if x.1 ≤ y.1 then x :: y :: ys else y :: insertByStart x ys
 
 def sortByStart (l : List Rng') : List Rng' := l.foldr insertByStart []
 
